@@ -996,10 +996,10 @@ func (f *frame) instr(b *ssa.BasicBlock, in ssa.Instruction, rc Ref) {
 			if x.IsConst() {
 				f.env[in] = u.ConstVal(constant.UnaryOp(token.SUB, x.Const, 0), in.Type())
 			} else {
-				f.env[in] = u.mk("un", "-", in.Type(), x)
+				f.env[in] = u.Un("-", x, in.Type())
 			}
 		case token.XOR:
-			f.env[in] = u.mk("un", "^", in.Type(), x)
+			f.env[in] = u.Un("^", x, in.Type())
 		case token.ARROW:
 			f.env[in] = u.mk("recv", f.g.fresh("r"), in.Type(), x)
 		default:
